@@ -258,7 +258,7 @@ def pipeTail (E : Env) (t : Text) : Text :=
 theorem lower_words (E : Env) (t : Text) : (t.lower E).words = t.words := by
   simp only [Text.lower]; split <;> rfl
 
-theorem lower_chars (E : Env) (t : Text) :
+theorem stable_lower_chars (E : Env) (t : Text) :
     (t.lower E).chars = if t.chars.any E.U.isUppercase then t.chars.map E.U.lower1 else t.chars := by
   simp only [Text.lower]; split <;> rfl
 
@@ -284,7 +284,7 @@ theorem pipeTail_spans (E : Env) (t : Text) (w0 : WordShape) (hw : t.words = [w0
     CharClass.punctuation]).strip E [CharClass.notAlphaNum]).lower E)
   constructor
   · rw [s1, c2, p1, lower_words, b1]
-  · rw [s3, c3, p3, lower_chars, b3, a3]
+  · rw [s3, c3, p3, stable_lower_chars, b3, a3]
 
 def Span.range (x : Span) : Nat × Nat := (x.lo, x.hi)
 
